@@ -11,6 +11,7 @@
   having the real BLS library verify the real signatures against the model's roots.
 -/
 import Dirk.Lemmas.Run
+import Dirk.Lemmas.PreCheck
 
 set_option linter.unusedSimpArgs false
 
@@ -112,7 +113,7 @@ theorem C08_signed_root (s : Inst) (c : String) (a : Addr) (d : AttData) (f : Fa
         split at h
         · simp at h
         · simp at h; subst h
-          refine ⟨hroot, acct, hpc, ?_⟩
+          refine ⟨hroot, acct, (preCheck_ok hpc).2, ?_⟩
           simp_all
 
 /-! ### injectivity of the SSZ chunks -/
